@@ -393,8 +393,8 @@ func (p c06Policy) String() string {
 
 var c06BlockPool = []string{"127.0.0.0/8", "10.0.0.0/8", "::1/128", "fc00::/7", "fe80::/10", "192.0.2.0/24", "198.51.100.0/24",
 	"2001:db8::/32", "0.0.0.0/0", "::/0", "::ffff:10.0.0.0/104", "0.0.0.0/32", "198.51.100.7/32", "2001:db8:1::/48", "172.16.0.0/12", "::/128", "127.0.0.1/32",
-	"127.0.0.2/32", "198.51.100.20/30"}
-var c06AllowPool = []string{"198.51.100.0/24", "2001:db8:1::/48", "127.0.0.1/32", "10.0.0.0/8", "0.0.0.0/0", "::/0", "192.0.2.0/25", "2001:db8::/32", "198.51.100.8/31", "fe80::/10"}
+	"127.0.0.2/32", "198.51.100.20/30", "10.0.0.0/24", "198.51.100.0/25", "2001:db8::/48", "fc00::/64"}
+var c06AllowPool = []string{"198.51.100.0/24", "2001:db8:1::/48", "127.0.0.1/32", "10.0.0.0/8", "0.0.0.0/0", "::/0", "192.0.2.0/25", "2001:db8::/32", "198.51.100.8/31", "fe80::/10", "198.51.100.0/30", "10.0.0.0/16", "2001:db8:1::/64"}
 var c06DomainPool = []string{"localhost", `.*blocked\.com$`, "^$", "test$", "(?i)^LOCAL", "^ok", `\d+\.\d+`, "%", "^rebind", `^\[`, ":", `^198\.51\.100\.`, `^2001:db8:1:`, `^127\.`}
 
 var c06FixedPolicies = []c06Policy{
@@ -465,6 +465,7 @@ type c06World struct {
 	logger  *log.Logger
 	nextSec uint64
 	ifaces  []*net.IPNet
+	dir     string // scratch directory of the reload part
 }
 
 type c06Parsed struct {
@@ -474,6 +475,9 @@ type c06Parsed struct {
 	block  []*net.IPNet // parsed by the harness itself (oracle side)
 	allow  []*net.IPNet
 	domain []*regexp.Regexp
+	// chain: set when the policy was put in force by reloads (start-up policy and every reload with the loading
+	// steps that failed, see zz_verif_c06_reload_test.go); pol is then the policy of the last configuration that loaded
+	chain string
 }
 
 // the networks of the local interfaces, as the harness sees them (oracle side of
@@ -766,8 +770,13 @@ func (w *c06World) runC06(out *vlib.Out, pp *c06Parsed, provided string, gen int
 	w.dns.gen.Store(int64(gen))
 	conf := pp.conf
 	replay := fmt.Sprintf("c06|gen=%d|%s|%s|%s", gen, pp.pol.String(), hex.EncodeToString([]byte(provided)), hex.EncodeToString([]byte(dup)))
+	how := ""
+	if pp.chain != "" {
+		replay = fmt.Sprintf("c06r|gen=%d|%s|%s|%s", gen, pp.chain, hex.EncodeToString([]byte(provided)), hex.EncodeToString([]byte(dup)))
+		how = " (the policy of the last configuration that loaded; start-up policy and reloads `<failed steps c/s/g>!<policy>`: " + pp.chain + ")"
+	}
 	fail := func(sig, what string) {
-		c06Fail(out, sig, what+" — covert "+strconv.Quote(provided)+" policy "+pp.pol.String(), replay)
+		c06Fail(out, sig, what+" — covert "+strconv.Quote(provided)+" policy "+pp.pol.String()+how, replay)
 	}
 
 	// ---- the answers of the standard library (oracle parameters of the model)
@@ -1300,31 +1309,15 @@ func TestVerifC06(t *testing.T) {
 		fixed[pi] = w.parsePolicy(pp.pol)
 	}
 
+	// ---- configurations put in force by reloads, every subset of loading steps failing
+	w.reloadPart(out, r, freePort)
+
 	// ---- random policies × random / mutated covert strings
 	n := vlib.Budget(6000, 600000)
 	var pp *c06Parsed
 	for i := 0; i < n; i++ {
 		if i%40 == 0 {
-			var p c06Policy
-			for _, s := range c06BlockPool {
-				if r.Chance(1, 4) {
-					p.block = append(p.block, s)
-				}
-			}
-			if r.Chance(1, 2) {
-				for _, s := range c06AllowPool {
-					if r.Chance(1, 4) {
-						p.allow = append(p.allow, s)
-					}
-				}
-			}
-			for _, s := range c06DomainPool {
-				if r.Chance(1, 6) {
-					p.domains = append(p.domains, s)
-				}
-			}
-			p.public = r.Chance(1, 8)
-			pp = w.parsePolicy(p)
+			pp = w.parsePolicy(c06RandomPolicy(r))
 		}
 		var s string
 		port := []string{"80", "443", freePort, "65535"}[r.Intn(4)]
@@ -1457,6 +1450,28 @@ func (w *c06World) replay(t *testing.T, out *vlib.Out, path string) {
 			pol := c06ParsePolicy(f[1])
 			w.runSched(out, pol, coverts, sch)
 			fmt.Printf("REPLAY workers %q schedule %s policy %s\n", coverts, f[3], pol.String())
+		case strings.HasPrefix(line, "c06r|"):
+			f := strings.Split(line, "|")
+			if len(f) != 5 {
+				t.Fatalf("bad replay line %q", line)
+			}
+			gen, _ := strconv.Atoi(strings.TrimPrefix(f[1], "gen="))
+			start, steps, ok := c06ParseChain(f[2])
+			cov, err1 := hex.DecodeString(f[3])
+			d, err2 := hex.DecodeString(f[4])
+			if !ok || err1 != nil || err2 != nil {
+				t.Fatalf("bad replay line %q", line)
+			}
+			ch := w.newChain(start)
+			for _, st := range steps {
+				w.reload(out, ch, st)
+			}
+			w.runReloaded(out, ch, string(cov), gen, string(d))
+			w.dns.gen.Store(int64(gen))
+			w.dns.beginCall()
+			got, lookup := ch.pp.rm.ParseOrResolveBlocklisted(string(cov))
+			fmt.Printf("REPLAY covert %q after start-up policy and reloads %s: configuration in force %d (%s), installed lists %s -> %q lookup=%v\n", cov, f[2], ch.inForce,
+				ch.pp.pol.String(), c06LiveIndex(ch.pp.conf, len(ch.steps)), got, lookup)
 		case strings.HasPrefix(line, "c06|"):
 			f := strings.SplitN(line, "|", 5)
 			if len(f) < 4 {
